@@ -111,6 +111,33 @@ CHECKS = {
         design_ref='DESIGN.md section 2, C09',
         note='Trusted: the probe generator and component summary of mc/checks/c09.py. A bare schema.copy() is explored, not judged. Known finding: XSD 1.1 circular '
              'attribute groups get order-dependent attribute sets (44 arrangements of one schema).'),
+    'C03': dict(
+        technique='exhaustive enumeration of attribute declaration vectors x wildcards x every subset of a name pool x value deviations; set/dict reference model',
+        text='Model checking by bounded exhaustive enumeration: declaration vectors over 6 declarable items (local/qualified/ref to target, foreign and xml: '
+             'globals; use x default/fixed x direct/attributeGroup x type) with 1 item complete, 2-3 items up to a deviation bound, x 22 attribute wildcards '
+             '(7 namespace constraints x skip/lax/strict + none), x EVERY subset of a 7-name pool (+ xsi:nil, an undeclared foreign name) x single value '
+             'deviations, x use_defaults x fill_missing, both processors. The statement is transcribed with Python sets/dicts (mc/ref/attrs.py); verdict, decoded keys '
+             'and decoded values are compared.',
+        design_ref='DESIGN.md section 2, C03',
+        note='Trusted: mc/ref/attrs.py + the set semantics of mc/ref/wild.py. Counted, not judged: unknown xsi:* attributes under a wildcard that excludes the xsi namespace, '
+             'prohibited names admitted by a wildcard, attributes the statement is silent about in decoded data.'),
+    'C07': dict(
+        technique='exhaustive enumeration of type graphs x flag vectors (deviation-bounded) x instance variants; spec-transcribed derivation/substitution/nil/alternative reference',
+        text='Model checking by bounded exhaustive enumeration: every type tree with the declared type plus <= 2 (quick) / <= 3 (thorough) named types, every edge '
+             'extension|restriction, three content kinds, flag vectors with <= 2 (3) deviations over abstract / block / blockDefault / nillable / fixed / substitution groups '
+             '(two levels) / XSD 1.1 alternatives, and per schema 100-400 instance variants (xsi:type in every type + unknown + unbound prefix, xsi:nil in 5 spellings, '
+             'content variants, element name in head/members). The verdict is compared with cos-ct-derived-ok / cos-st-derived-ok / cvc-elt transcribed in mc/ref/derivation.py.',
+        design_ref='DESIGN.md section 2, C07',
+        note='Trusted: mc/ref/derivation.py. Contested readings (block on intermediate types, head block applied to a member\'s xsi:type, nilled xs:error alternative) are counted, not judged.'),
+    'C08': dict(
+        technique='exhaustive enumeration of all small field-tuple tables per constraint template x value alphabets with lexical variants x scopes; dict-based node-table reference',
+        text='Model checking by bounded exhaustive enumeration: templates unique / key / key+keyref x 6 field layouts x 11 value alphabets (two lexical forms of one value, '
+             'a different value, absent) x scopes (root, wrapper, sibling scopes, scope nested in itself, keyref one level above its key) x ALL tables up to 3 (quick) / 4 '
+             '(thorough) rows in all row orders, plus every ID/IDREF/IDREFS table over 6 carrier layouts, both processors. The five rejection conditions of the statement are '
+             'evaluated on plain dict node tables keyed by value-space tuples and compared with is_valid().',
+        design_ref='DESIGN.md section 2, C08',
+        note='Trusted: mc/ref/identity.py. Cases whose verdict depends on how key tables propagate to ancestors are counted, not judged. Known findings: scope element '
+             'nested in itself (counter reset), keyref declared above the scope element of its key, KeyError when the key scope element never occurs.'),
 }
 
 PENDING_REASON = 'check not built yet in this session; the design (DESIGN.md section 2) applies bounded exhaustive exploration to it'
